@@ -11,12 +11,12 @@ counterexamples in the last section run the current stub.
 Contents
 1. `Inv`, `TxShape`: invariant and shape of everything transmitted (`step_preserves_inv`,
    `step_tx_shape`, `run_tx_shape`, `trace_tx_shape`, `reachable_inv`).
-2. `solicited_correlated_idle`, `solWait_confirm_continues`, `continuation_correlated`,
+2. `solicited_correlated_idle`, `solWait_confirm_continues`, `solContinuation_stores`, `continuation_correlated`,
    `nonread_response_correlated`, `rejection_flagged_header`.
 3. `unsolicited_numbering`, `unsolicited_retry_verbatim`.
 4. `silent_functions_nonread`, `silent_functions_partial`, `silent_confirm_idle`.
-5. `rejection_flagged_*`, `parseObjects_error`, `write_last_header_wins`,
-   `write_rejection_lost_counterexample` (D7), `write_rejection_flagged_partial`.
+5. `rejection_flagged_*`, `parseObjects_error`, `write_accumulates`,
+   `write_rejection_flagged` (full; D7 repaired), `rejection_flagged_write`.
 6. `operate_echo_overflow_panics` (D1), `select_echo_overflow_clean` (D13) and evaluated counterexamples.
 -/
 namespace Dnp3.Proofs.C12
@@ -127,18 +127,22 @@ theorem TxOk.shape {cfg : OCfg} {dst : Nat} {b : List Nat} (hs : 4 ≤ cfg.sol) 
 
 /-! ## The invariant -/
 
-/-- what is stored in `lastReq` -/
+/-- what is stored in `lastReq`: a well-formed solicited response; for a non-READ request it is the
+    single fragment answering it (same sequence number, FIR, FIN).  For a READ it is the fragment of
+    the response series sent last (D5 repaired: a continuation fragment replaces the first one) -/
 def StoredOk (cfg : OCfg) (lr : LastReq) : Prop :=
   lr.seq < 16 ∧ ∀ r, lr.response = some r →
-    SolResp cfg r ∧ r.ctrl.seq = lr.seq ∧ r.ctrl.fir = true ∧ (lr.frag.getD 1 0 ≠ 1 → r.ctrl.fin = true)
+    SolResp cfg r ∧ (lr.frag.getD 1 0 ≠ 1 → r.ctrl.seq = lr.seq ∧ r.ctrl.fir = true ∧ r.ctrl.fin = true)
 
-/-- the session invariant (buffer geometry, stored responses well-formed, sequence numbers in range) -/
+/-- the session invariant (buffer geometry, stored responses well-formed, sequence numbers in range;
+    a solicited series that is not finished belongs to a READ) -/
 def Inv (cfg : OCfg) (s : OState) : Prop :=
   s.cfg = cfg ∧ 10 ≤ cfg.sol ∧ 4 ≤ cfg.unsol ∧
   s.solBuf.length = cfg.sol ∧ s.unsolBuf.length = cfg.unsol ∧ s.unsolSeq < 16 ∧
   (∀ lr, s.lastReq = some lr → StoredOk cfg lr) ∧
   (∀ r n rt d, s.mode = .unsolWait r n rt d → UnsolResp cfg r) ∧
-  (∀ d, s.deferred = some d → d.seq < 16 ∧ d.frag.getD 1 0 = 1)
+  (∀ d, s.deferred = some d → d.seq < 16 ∧ d.frag.getD 1 0 = 1) ∧
+  (∀ sr dl c, s.mode = .solWait sr dl c → sr.fin = false → ∀ lr, s.lastReq = some lr → lr.frag.getD 1 0 = 1)
 
 /-- invariant + everything emitted so far is well-formed -/
 def Good (cfg : OCfg) (a : Acc) : Prop := Inv cfg a.1 ∧ ∀ o ∈ a.2, TxOk cfg o
@@ -819,20 +823,46 @@ theorem classify_func {s : OState} {f : Frag} {ctrl : AppCtrl} {func : Nat} {obj
 
 /-! ## setters of tracked fields -/
 
+/-- no solicited series is open: a `.solWait` mode, if any, is that of a series whose last fragment was sent
+    (in particular any mode that is not `.solWait`) -/
+def NoOpen (m : Mode) : Prop := ∀ sr dl c, m = .solWait sr dl c → sr.fin = true
+
+theorem NoOpen.elim {m : Mode} (h : NoOpen m) {sr : Series} {dl : Nat} {c : SolCont} (hm : m = .solWait sr dl c)
+    (hf : sr.fin = false) {P : Prop} : P :=
+  absurd (h sr dl c hm) (by rw [hf]; decide)
+
+theorem NoOpen.idle (n : NextIdle) : NoOpen (.idle n) := fun _ _ _ h => by cases h
+
+theorem NoOpen.unsolWait (r : Resp) (n : Bool) (rt : Option Nat) (d : Nat) : NoOpen (.unsolWait r n rt d) :=
+  fun _ _ _ h => by cases h
+
 theorem Good.setMode {cfg : OCfg} {a : Acc} (h : Good cfg a) (m : Mode)
-    (hm : ∀ r n rt d, m = .unsolWait r n rt d → UnsolResp cfg r) : Good cfg ({ a.1 with mode := m }, a.2) := by
-  obtain ⟨⟨h1, h2, h3, h4, h5, h6, h7, _, h9⟩, ho⟩ := h
-  exact ⟨⟨h1, h2, h3, h4, h5, h6, h7, hm, h9⟩, ho⟩
+    (hm : ∀ r n rt d, m = .unsolWait r n rt d → UnsolResp cfg r)
+    (hs : ∀ sr dl c, m = .solWait sr dl c → sr.fin = false → ∀ lr, a.1.lastReq = some lr → lr.frag.getD 1 0 = 1) :
+    Good cfg ({ a.1 with mode := m }, a.2) := by
+  obtain ⟨⟨h1, h2, h3, h4, h5, h6, h7, _, h9, _⟩, ho⟩ := h
+  exact ⟨⟨h1, h2, h3, h4, h5, h6, h7, hm, h9, hs⟩, ho⟩
+
+/-- the confirm wait on the same series goes on (new deadline) -/
+theorem Good.reSolWait {cfg : OCfg} {a : Acc} (h : Good cfg a) {sr : Series} {dl : Nat} {c : SolCont}
+    (hm : a.1.mode = .solWait sr dl c) (dl' : Nat) (c' : SolCont) :
+    Good cfg ({ a.1 with mode := .solWait sr dl' c' }, a.2) := by
+  refine h.setMode _ (fun _ _ _ _ hm' => by cases hm') (fun sr' _ _ hm' hf => ?_)
+  simp only [Mode.solWait.injEq] at hm'
+  obtain ⟨rfl, _, _⟩ := hm'
+  exact h.1.2.2.2.2.2.2.2.2.2 _ _ _ hm hf
 
 theorem Good.setLastReq {cfg : OCfg} {a : Acc} (h : Good cfg a) (lr : Option LastReq)
-    (hl : ∀ l, lr = some l → StoredOk cfg l) : Good cfg ({ a.1 with lastReq := lr }, a.2) := by
-  obtain ⟨⟨h1, h2, h3, h4, h5, h6, _, h8, h9⟩, ho⟩ := h
-  exact ⟨⟨h1, h2, h3, h4, h5, h6, hl, h8, h9⟩, ho⟩
+    (hl : ∀ l, lr = some l → StoredOk cfg l)
+    (hs : ∀ sr dl c, a.1.mode = .solWait sr dl c → sr.fin = false → ∀ l, lr = some l → l.frag.getD 1 0 = 1) :
+    Good cfg ({ a.1 with lastReq := lr }, a.2) := by
+  obtain ⟨⟨h1, h2, h3, h4, h5, h6, _, h8, h9, _⟩, ho⟩ := h
+  exact ⟨⟨h1, h2, h3, h4, h5, h6, hl, h8, h9, hs⟩, ho⟩
 
 theorem Good.setDeferred {cfg : OCfg} {a : Acc} (h : Good cfg a) (d : Option Deferred)
     (hd : ∀ x, d = some x → x.seq < 16 ∧ x.frag.getD 1 0 = 1) : Good cfg ({ a.1 with deferred := d }, a.2) := by
-  obtain ⟨⟨h1, h2, h3, h4, h5, h6, h7, h8, _⟩, ho⟩ := h
-  exact ⟨⟨h1, h2, h3, h4, h5, h6, h7, h8, hd⟩, ho⟩
+  obtain ⟨⟨h1, h2, h3, h4, h5, h6, h7, h8, _, h10⟩, ho⟩ := h
+  exact ⟨⟨h1, h2, h3, h4, h5, h6, h7, h8, hd, h10⟩, ho⟩
 
 theorem Good.clearDeferred {cfg : OCfg} {a : Acc} (h : Good cfg a) : Good cfg ({ a.1 with deferred := none }, a.2) :=
   h.setDeferred none (fun x hx => by simp at hx)
@@ -849,6 +879,278 @@ theorem Good.writeUnsol4 {cfg : OCfg} {s : OState} {out : List OOut} (h : Good c
   show (writeAt _ _ _).length = _
   dsimp only at hul
   rw [writeAt_length] <;> omega
+
+/-! ## `mode` and `lastReq` are not touched by the handlers
+
+`Inv` relates `mode` to `lastReq`; `lastReq` is stored after a handler ran, so the proofs need to know
+that the handler left `mode` alone. -/
+
+/-- the accumulator's `mode` is `m` -/
+def ModeIs (m : Mode) (a : Acc) : Prop := a.1.mode = m
+
+theorem ModeIs.emitCb {m : Mode} {a : Acc} (h : ModeIs m a) (c : Cb) : ModeIs m (emitCb a c) := h
+
+theorem ModeIs.nextStatus {m : Mode} {s : OState} {out : List OOut} (h : ModeIs m (s, out)) :
+    ModeIs m ((nextStatus s).1, out) := by
+  unfold Dnp3.nextStatus; split <;> exact h
+
+theorem ModeIs.handleWriteIin {m : Mode} {a : Acc} (h : ModeIs m a) (start stop : Nat) (data : List Nat) :
+    ModeIs m (handleWriteIin a start stop data).1 := by
+  unfold Dnp3.handleWriteIin
+  apply foldl_inv (fun p : Acc × Nat => ModeIs m p.1) _ _ _ _ h
+  intro p i hp
+  dsimp only
+  split
+  · split <;> exact hp
+  · exact hp
+
+theorem ModeIs.handleWriteHeader {m : Mode} {a : Acc} (h : ModeIs m a) (hd : ObjHdr) :
+    ModeIs m (handleWriteHeader a hd).1 := by
+  unfold Dnp3.handleWriteHeader
+  splits
+  all_goals first | exact h.handleWriteIin _ _ _ | exact h
+
+theorem ModeIs.handleWrite {m : Mode} {a : Acc} (h : ModeIs m a) (seq : Nat) (hs : List ObjHdr) :
+    ModeIs m (handleWrite a seq hs).1 := by
+  unfold Dnp3.handleWrite
+  apply foldl_inv (fun p : Acc × Nat => ModeIs m p.1) _ _ _ _ h
+  intro p hd hp
+  exact hp.handleWriteHeader hd
+
+theorem ModeIs.handleFreezeHeader {m : Mode} {a : Acc} (h : ModeIs m a) (k : FreezeKind) (hd : ObjHdr) :
+    ModeIs m (handleFreezeHeader a k hd).1 := by
+  unfold Dnp3.handleFreezeHeader
+  splits <;> exact h
+
+theorem ModeIs.handleFreeze {m : Mode} {a : Acc} (h : ModeIs m a) (seq : Nat) (k : FreezeKind) (hs : List ObjHdr) :
+    ModeIs m (handleFreeze a seq k hs).1 := by
+  unfold Dnp3.handleFreeze
+  apply foldl_inv (fun p : Acc × Nat => ModeIs m p.1) _ _ _ _ h
+  intro p hd hp
+  exact hp.handleFreezeHeader k hd
+
+theorem ModeIs.handleEnableDisable {m : Mode} {a : Acc} (h : ModeIs m a) (en : Bool) (seq : Nat) (hs : List ObjHdr) :
+    ModeIs m (handleEnableDisable a en seq hs).1 := by
+  unfold Dnp3.handleEnableDisable
+  split
+  · exact h
+  · apply foldl_inv (fun p : OState × Nat => ModeIs m (p.1, a.2)) _ _ _ _ h
+    intro p hd hp
+    splits <;> exact hp
+
+theorem ModeIs.countOfOne {m : Mode} {a : Acc} (h : ModeIs m a) (seq g v value : Nat) :
+    ModeIs m (countOfOne a seq g v value).1 := h
+
+theorem ModeIs.handleRestart {m : Mode} {a : Acc} (h : ModeIs m a) (seq : Nat) (name : Cb) :
+    ModeIs m (handleRestart a seq name).1 := by
+  unfold Dnp3.handleRestart
+  splits <;> exact h
+
+theorem ModeIs.ctlStatus {m : Mode} (kind : Option CtlKind) (fixedStatus : Nat) (maxctl : Option Nat)
+    (h : ObjHdr) (ix obj : List Nat) (r : CtlRun) (hg : ModeIs m r.acc) :
+    ModeIs m (C12.ctlStatus kind fixedStatus maxctl h ix obj r).1.acc := by
+  unfold C12.ctlStatus
+  cases kind with
+  | none => exact hg
+  | some k =>
+    dsimp only
+    have : ModeIs m ((Dnp3.nextStatus r.acc.1).1, r.acc.2) := ModeIs.nextStatus (s := r.acc.1) (out := r.acc.2) hg
+    repeat' split
+    all_goals (dsimp only; first | exact this | exact hg)
+
+theorem ModeIs.go {m : Mode} (kind : Option CtlKind) (fixedStatus : Nat) (maxctl : Option Nat) (h : ObjHdr)
+    (isz : Nat) (hdrBytes : List Nat) :
+    ∀ (items : List (List Nat × List Nat)) (r : CtlRun) (count : Nat) (hdrOut body : List Nat),
+      ModeIs m r.acc →
+      ModeIs m (ctlHeader.go kind fixedStatus maxctl h isz hdrBytes items r count hdrOut body).acc := by
+  intro items
+  induction items with
+  | nil => intro r count hdrOut body hg; rw [go_nil]; exact hg
+  | cons it rest ih =>
+    intro r count hdrOut body hg
+    obtain ⟨ix, obj⟩ := it
+    rw [go_cons]
+    split
+    · exact hg
+    · have qg := ModeIs.ctlStatus kind fixedStatus maxctl h ix obj r hg
+      generalize C12.ctlStatus kind fixedStatus maxctl h ix obj r = q at qg ⊢
+      dsimp only
+      by_cases hk : kind = some CtlKind.donr
+      · rw [if_pos hk]; exact ih _ _ _ _ qg
+      · rw [if_neg hk]
+        by_cases hfit : q.1.out.length + (if count = 0 then hdrBytes ++ (if isz = 1 then [0] else [0, 0]) else hdrOut).length
+              + body.length + (ix ++ withStatus obj q.2.1).length > q.1.cap
+        · rw [if_pos hfit]; exact qg
+        · rw [if_neg hfit]; exact ih _ _ _ _ qg
+
+theorem ModeIs.ctlAll {m : Mode} (kind : Option CtlKind) (fixedStatus : Nat) (maxctl : Option Nat)
+    (hs : List ObjHdr) {r : CtlRun} (hr : ModeIs m r.acc) :
+    ModeIs m (ctlAll kind fixedStatus maxctl hs r).acc := by
+  unfold Dnp3.ctlAll
+  apply foldl_inv (fun r : CtlRun => ModeIs m r.acc) _ _ _ _ hr
+  intro r h hr
+  split
+  · exact hr
+  · unfold ctlHeader; exact ModeIs.go _ _ _ _ _ _ _ _ _ _ _ hr
+
+theorem ModeIs.ctlFinish {m : Mode} {r : CtlRun} (hr : ModeIs m r.acc) : ModeIs m (ctlFinish r).acc := by
+  unfold Dnp3.ctlFinish
+  split
+  · exact hr.emitCb _
+  · exact hr
+
+theorem ModeIs.handleControls {m : Mode} {a a' : Acc} (h : ModeIs m a) {func seq frameId : Nat}
+    {hs : List ObjHdr} {raw : List Nat} {ro : Option Resp}
+    (hc : handleControls a func seq frameId hs raw = some (a', ro)) : ModeIs m a' := by
+  have key : ∀ (kind : Option CtlKind) (fs : Nat) (mc : Option Nat) (cap : Nat),
+      ModeIs m (Dnp3.ctlFinish (Dnp3.ctlAll kind fs mc hs { acc := a, cap := cap })).acc :=
+    fun kind fs mc cap => ModeIs.ctlFinish (ModeIs.ctlAll kind fs mc hs (r := ({ acc := a, cap := cap } : CtlRun)) h)
+  unfold Dnp3.handleControls at hc
+  split at hc
+  · simp only [Option.some.injEq, Prod.mk.injEq] at hc
+    obtain ⟨rfl, _⟩ := hc; exact h
+  · dsimp only at hc
+    split at hc
+    · simp only [Option.some.injEq, Prod.mk.injEq] at hc
+      obtain ⟨rfl, _⟩ := hc
+      have := key (some .select) 0 a.1.cfg.maxctl (a.1.cfg.sol - 4)
+      unfold ModeIs at this ⊢
+      dsimp only
+      split <;> exact this
+    · split at hc
+      · split at hc
+        · split at hc
+          · simp at hc
+          · simp only [Option.some.injEq, Prod.mk.injEq] at hc
+            obtain ⟨rfl, _⟩ := hc
+            exact key none _ none (a.1.cfg.sol - 4)
+        · split at hc
+          · simp at hc
+          · simp only [Option.some.injEq, Prod.mk.injEq] at hc
+            obtain ⟨rfl, _⟩ := hc
+            exact key (some .sbo) 0 a.1.cfg.maxctl (a.1.cfg.sol - 4)
+      · split at hc
+        · simp only [Option.some.injEq, Prod.mk.injEq] at hc
+          obtain ⟨rfl, _⟩ := hc
+          exact key (some .dop) 0 a.1.cfg.maxctl (a.1.cfg.sol - 4)
+        · simp only [Option.some.injEq, Prod.mk.injEq] at hc
+          obtain ⟨rfl, _⟩ := hc
+          exact key (some .donr) 0 a.1.cfg.maxctl (a.1.cfg.sol - 4)
+
+theorem ModeIs.nonReadRes {m : Mode} {a a' : Acc} (h : ModeIs m a) {func seq frameId : Nat}
+    {hs : List ObjHdr} {raw : List Nat} {ro : Option Resp}
+    (hn : nonReadRes a func seq frameId hs raw = some (a', ro)) : ModeIs m a' := by
+  unfold C12.nonReadRes at hn
+  by_cases c0 : func = 2
+  · rw [if_pos c0] at hn; simp only [Option.some.injEq, Prod.mk.injEq] at hn; obtain ⟨rfl, _⟩ := hn
+    exact h.handleWrite seq hs
+  rw [if_neg c0] at hn
+  by_cases c1 : func = 23
+  · rw [if_pos c1] at hn; simp only [Option.some.injEq, Prod.mk.injEq] at hn; obtain ⟨rfl, _⟩ := hn
+    exact h
+  rw [if_neg c1] at hn
+  by_cases c2 : func = 24
+  · rw [if_pos c2] at hn; simp only [Option.some.injEq, Prod.mk.injEq] at hn; obtain ⟨rfl, _⟩ := hn
+    exact h
+  rw [if_neg c2] at hn
+  by_cases c3 : func = 13
+  · rw [if_pos c3] at hn; simp only [Option.some.injEq, Prod.mk.injEq] at hn; obtain ⟨rfl, _⟩ := hn
+    exact h.handleRestart _ _
+  rw [if_neg c3] at hn
+  by_cases c4 : func = 14
+  · rw [if_pos c4] at hn; simp only [Option.some.injEq, Prod.mk.injEq] at hn; obtain ⟨rfl, _⟩ := hn
+    exact h.handleRestart _ _
+  rw [if_neg c4] at hn
+  by_cases c5 : func = 3 ∨ func = 4 ∨ func = 5 ∨ func = 6
+  · rw [if_pos c5] at hn; exact h.handleControls hn
+  rw [if_neg c5] at hn
+  by_cases c6 : func = 7
+  · rw [if_pos c6] at hn; simp only [Option.some.injEq, Prod.mk.injEq] at hn; obtain ⟨rfl, _⟩ := hn
+    exact h.handleFreeze _ _ _
+  rw [if_neg c6] at hn
+  by_cases c7 : func = 8
+  · rw [if_pos c7] at hn; simp only [Option.some.injEq, Prod.mk.injEq] at hn; obtain ⟨rfl, _⟩ := hn
+    exact h.handleFreeze _ _ _
+  rw [if_neg c7] at hn
+  by_cases c8 : func = 9
+  · rw [if_pos c8] at hn; simp only [Option.some.injEq, Prod.mk.injEq] at hn; obtain ⟨rfl, _⟩ := hn
+    exact h.handleFreeze _ _ _
+  rw [if_neg c8] at hn
+  by_cases c9 : func = 10
+  · rw [if_pos c9] at hn; simp only [Option.some.injEq, Prod.mk.injEq] at hn; obtain ⟨rfl, _⟩ := hn
+    exact h.handleFreeze _ _ _
+  rw [if_neg c9] at hn
+  by_cases c10 : func = 11
+  · rw [if_pos c10] at hn; simp only [Option.some.injEq, Prod.mk.injEq] at hn; obtain ⟨rfl, _⟩ := hn
+    exact h
+  rw [if_neg c10] at hn
+  by_cases c11 : func = 12
+  · rw [if_pos c11] at hn; simp only [Option.some.injEq, Prod.mk.injEq] at hn; obtain ⟨rfl, _⟩ := hn
+    exact h
+  rw [if_neg c11] at hn
+  by_cases c12 : func = 20
+  · rw [if_pos c12] at hn; simp only [Option.some.injEq, Prod.mk.injEq] at hn; obtain ⟨rfl, _⟩ := hn
+    exact h.handleEnableDisable _ _ _
+  rw [if_neg c12] at hn
+  by_cases c13 : func = 21
+  · rw [if_pos c13] at hn; simp only [Option.some.injEq, Prod.mk.injEq] at hn; obtain ⟨rfl, _⟩ := hn
+    exact h.handleEnableDisable _ _ _
+  rw [if_neg c13] at hn
+  simp only [Option.some.injEq, Prod.mk.injEq] at hn; obtain ⟨rfl, _⟩ := hn
+  exact h
+
+/-- `handle_non_read` leaves `mode` alone -/
+theorem handleNonRead_mode {a a' : Acc} {func seq frameId : Nat} {hs : List ObjHdr} {raw : List Nat}
+    {ro : Option Resp} (hn : handleNonRead a func seq frameId hs raw = some (a', ro)) : a'.1.mode = a.1.mode := by
+  have h : ModeIs a.1.mode a := rfl
+  rw [handleNonRead_eq] at hn
+  split at hn
+  · simp at hn
+  · rename_i a1 hres
+    simp only [Option.some.injEq, Prod.mk.injEq] at hn
+    obtain ⟨rfl, _⟩ := hn
+    exact h.nonReadRes hres
+  · rename_i a1 r1 hres
+    simp only [Option.some.injEq, Prod.mk.injEq] at hn
+    obtain ⟨rfl, _⟩ := hn
+    exact h.nonReadRes hres
+
+theorem popRequest_mode (s : OState) : (popRequest s).1.mode = s.mode ∧ (popRequest s).1.lastReq = s.lastReq := by
+  rcases popRequest_state s with e | e <;> rw [e] <;> exact ⟨rfl, rfl⟩
+
+theorem getResponseIin_mode {s s' : OState} {i1 i2 : Nat} (h : getResponseIin s = some (s', i1, i2)) :
+    s'.mode = s.mode ∧ s'.lastReq = s.lastReq := by
+  rcases getResponseIin_state h with rfl | rfl <;> exact ⟨rfl, rfl⟩
+
+/-- `write_solicited` leaves `mode` and `lastReq` alone -/
+theorem writeSolicited_mode {a a' : Acc} {dst : Nat} {r r' : Resp} (hw : writeSolicited a dst r = some (a', r')) :
+    a'.1.mode = a.1.mode ∧ a'.1.lastReq = a.1.lastReq := by
+  unfold Dnp3.writeSolicited at hw
+  split at hw
+  · simp at hw
+  · rename_i s i1 i2 hg
+    simp only [Option.some.injEq, Prod.mk.injEq] at hw
+    obtain ⟨rfl, _⟩ := hw
+    have hh := getResponseIin_mode hg
+    exact ⟨hh.1, hh.2⟩
+
+theorem formatReadResponse_mode (s : OState) (fir : Bool) (seq iin2 : Nat) :
+    (formatReadResponse s fir seq iin2).1.mode = s.mode ∧ (formatReadResponse s fir seq iin2).1.lastReq = s.lastReq :=
+  ⟨rfl, rfl⟩
+
+theorem foldl_emitCb_state (g : Nat → Cb) : ∀ (ids : List Nat) (b : Acc),
+    (ids.foldl (fun a id => emitCb a (g id)) b).1 = b.1
+  | [], _ => rfl
+  | _ :: ids, _ => foldl_emitCb_state g ids _
+
+theorem clearWrittenEvents_mode (a : Acc) :
+    (clearWrittenEvents a).1.mode = a.1.mode ∧ (clearWrittenEvents a).1.lastReq = a.1.lastReq := by
+  unfold Dnp3.clearWrittenEvents
+  dsimp only
+  show (List.foldl (fun a id => emitCb a (Cb.eventCleared id)) _ _).1.mode = _ ∧
+    (List.foldl (fun a id => emitCb a (Cb.eventCleared id)) _ _).1.lastReq = _
+  rw [foldl_emitCb_state]
+  exact ⟨rfl, rfl⟩
 
 /-! ## READ responses -/
 
@@ -1055,8 +1357,9 @@ theorem Good.idleResult {cfg : OCfg} (hdb : DbContract) {a a' : Acc} (h : Good c
     · simp only [Option.some.injEq] at hl; subst hl
       refine ⟨rfl, rfl, fun r hr => ?_⟩
       dsimp only at hr
-      obtain ⟨h1, h2, h3, h4⟩ := hst.2 r hr
-      exact ⟨h1, h2.trans hs0, h3, fun hne => h4 (by rw [hf0, hfn]; exact hne)⟩
+      obtain ⟨h1, h234⟩ := hst.2 r hr
+      obtain ⟨h2, h3, h4⟩ := h234 (by rw [hf0, hfn]; exact classify_func.2.2.2 _ hcl)
+      exact ⟨h1, h2.trans hs0, h3, fun _ => h4⟩
   · -- broadcast
     split at hi
     · simp at hi
@@ -1076,10 +1379,78 @@ theorem PreStored.stored {cfg : OCfg} {f : Frag} {ctrl : AppCtrl} {func : Nat} {
   obtain ⟨h1, h2, h3⟩ := h
   refine ⟨h1 ▸ hseq, fun r hr => ?_⟩
   obtain ⟨a1, a2, a3, a4⟩ := h3 r hr
-  exact ⟨a1, a2.trans h1.symm, a3, fun hne => a4 (by rw [h2, hfn] at hne; exact hne)⟩
+  exact ⟨a1, fun hne => ⟨a2.trans h1.symm, a3, a4 (by rw [h2, hfn] at hne; exact hne)⟩⟩
 
-theorem Good.handleRequestFromIdle {cfg : OCfg} (hdb : DbContract) {a a' : Acc} (h : Good cfg a) {f : Frag}
-    {ctrl : AppCtrl} {func : Nat} {objects : Except Nat (List ObjHdr)} {raw : List Nat}
+/-- the record `idleResult` hands to the writer is that of the fragment; only a READ starts a series -/
+theorem idleResult_lr {a a1 : Acc} {f : Frag} {ctrl : AppCtrl} {func : Nat} {objects : Except Nat (List ObjHdr)}
+    {raw : List Nat} {lr : LastReq} (hi : idleResult a f ctrl func objects raw = some (a1, some lr)) :
+    lr.frag = f.data ∧ (∀ sr, lr.series = some sr → func = 1) ∧ a1.1.mode = a.1.mode := by
+  unfold Dnp3.Proofs.C12.idleResult at hi
+  dsimp only at hi
+  split at hi
+  · simp only [Option.some.injEq, Prod.mk.injEq] at hi
+    obtain ⟨rfl, rfl⟩ := hi
+    exact ⟨rfl, fun sr h => by simp at h, rfl⟩
+  · rename_i hs hcl
+    simp only [Option.some.injEq, Prod.mk.injEq] at hi
+    obtain ⟨rfl, rfl⟩ := hi
+    exact ⟨rfl, fun _ _ => classify_func.1 _ hcl, rfl⟩
+  · rename_i r0 hs hcl
+    simp only [Option.some.injEq, Prod.mk.injEq] at hi
+    obtain ⟨rfl, rfl⟩ := hi
+    exact ⟨rfl, fun _ _ => classify_func.2.1 _ _ hcl, rfl⟩
+  · split at hi
+    · simp at hi
+    · rename_i a2 r1 hn
+      simp only [Option.some.injEq, Prod.mk.injEq] at hi
+      obtain ⟨rfl, rfl⟩ := hi
+      exact ⟨rfl, fun sr h => by simp at h, handleNonRead_mode hn⟩
+  · simp only [Option.some.injEq, Prod.mk.injEq] at hi
+    obtain ⟨rfl, rfl⟩ := hi
+    refine ⟨rfl, fun sr h => by simp at h, ?_⟩
+    dsimp only
+    split <;> rfl
+  · split at hi
+    · simp at hi
+    · simp at hi
+  · simp at hi
+  · simp at hi
+
+/-- a series that `handle_one_request_from_idle` leaves open (`fin` clear) is that of a READ, and that
+    READ is what `lastReq` holds -/
+theorem handleRequestFromIdle_open {a a' : Acc} {f : Frag} {ctrl : AppCtrl} {func : Nat}
+    {objects : Except Nat (List ObjHdr)} {raw : List Nat} (hfn : f.data.getD 1 0 = func) {sr : Series}
+    (hh : handleRequestFromIdle a f ctrl func objects raw = some (a', some sr)) (hfin : sr.fin = false) :
+    ∀ lr, a'.1.lastReq = some lr → lr.frag.getD 1 0 = 1 := by
+  rw [handleRequestFromIdle_eq] at hh
+  split at hh
+  · simp at hh
+  · simp at hh
+  · rename_i a1 lr hi
+    obtain ⟨hfrag, hser, _⟩ := idleResult_lr hi
+    have hread : ∀ s0, lr.series = some s0 → lr.frag.getD 1 0 = 1 := fun s0 h0 => by
+      rw [hfrag, hfn]; exact hser s0 h0
+    split at hh
+    · simp only [Option.some.injEq, Prod.mk.injEq] at hh
+      obtain ⟨rfl, hs⟩ := hh
+      intro l hl
+      simp only [Option.some.injEq] at hl; subst hl
+      exact hread sr hs
+    · split at hh
+      · simp at hh
+      · rename_i a2 r2 hw
+        simp only [Option.some.injEq, Prod.mk.injEq] at hh
+        obtain ⟨rfl, hs⟩ := hh
+        intro l hl
+        simp only [Option.some.injEq] at hl; subst hl
+        split at hs
+        · simp only [Option.some.injEq] at hs; subst hs; simp at hfin
+        · exact hread sr hs
+
+/-- `hm`: the request is handled from the idle state — no solicited series is open (`runPass` is only
+    entered with `mode = .idle _`) -/
+theorem Good.handleRequestFromIdle {cfg : OCfg} (hdb : DbContract) {a a' : Acc} (h : Good cfg a) (hm : NoOpen a.1.mode)
+    {f : Frag} {ctrl : AppCtrl} {func : Nat} {objects : Except Nat (List ObjHdr)} {raw : List Nat}
     (hreq : parseRequest f.data = .request ctrl func objects raw) {series : Option Series}
     (hh : handleRequestFromIdle a f ctrl func objects raw = some (a', series)) : Good cfg a' := by
   have hseq := parseRequest_seq_lt hreq
@@ -1094,11 +1465,13 @@ theorem Good.handleRequestFromIdle {cfg : OCfg} (hdb : DbContract) {a a' : Acc} 
   · rename_i a1 lr hi
     obtain ⟨hg, hp⟩ := h.idleResult hdb hseq hfn hi
     have hps := hp lr rfl
+    have hm1 : NoOpen a1.1.mode := (idleResult_lr hi).2.2 ▸ hm
     split at hh
     · simp only [Option.some.injEq, Prod.mk.injEq] at hh
       obtain ⟨rfl, rfl⟩ := hh
       exact hg.setLastReq _ (fun l hl => by
         simp only [Option.some.injEq] at hl; subst hl; exact hps.stored hseq hfn)
+        (fun _ _ _ hmo hf => hm1.elim hmo hf)
     · rename_i r hr
       split at hh
       · simp at hh
@@ -1107,11 +1480,12 @@ theorem Good.handleRequestFromIdle {cfg : OCfg} (hdb : DbContract) {a a' : Acc} 
         obtain ⟨rfl, rfl⟩ := hh
         obtain ⟨b1, b2, b3, b4⟩ := hps.2.2 r hr
         obtain ⟨g2, s2, e1, e2, e3, _⟩ := hg.writeSolicited b1 hw
-        refine g2.setLastReq _ (fun l hl => ?_)
+        have hm2 : NoOpen a2.1.mode := (writeSolicited_mode hw).1 ▸ hm1
+        refine g2.setLastReq _ (fun l hl => ?_) (fun _ _ _ hmo hf => hm2.elim hmo hf)
         simp only [Option.some.injEq] at hl; subst hl
         refine ⟨hps.1 ▸ hseq, fun r' hr' => ?_⟩
         simp only [Option.some.injEq] at hr'; subst hr'
-        refine ⟨s2, (e1.trans b2).trans hps.1.symm, e2.trans b3, fun hne => e3.trans (b4 ?_)⟩
+        refine ⟨s2, fun hne => ⟨(e1.trans b2).trans hps.1.symm, e2.trans b3, e3.trans (b4 ?_)⟩⟩
         rw [show ({ lr with response := some r2, series := _ } : LastReq).frag = lr.frag from rfl, hps.2.1, hfn] at hne
         exact hne
 
@@ -1122,12 +1496,17 @@ theorem GoodRes.blocked {cfg : OCfg} {a : Acc} (h : Good cfg a) : GoodRes cfg (.
 
 theorem GoodRes.die {cfg : OCfg} {a : Acc} (h : Good cfg a) : GoodRes cfg (die a) := by
   unfold Dnp3.die
-  exact Good.emit (h.setMode .dead (fun _ _ _ _ hm => by cases hm)) trivial
+  exact Good.emit (h.setMode .dead (fun _ _ _ _ hm => by cases hm) (fun _ _ _ hm => by cases hm)) trivial
 
-theorem Good.enterSolWait {cfg : OCfg} {a : Acc} (h : Good cfg a) (series : Series) (cont : SolCont) :
+/-- `hs`: a series that is not finished is that of the READ in `lastReq` -/
+theorem Good.enterSolWait {cfg : OCfg} {a : Acc} (h : Good cfg a) (series : Series) (cont : SolCont)
+    (hs : series.fin = false → ∀ lr, a.1.lastReq = some lr → lr.frag.getD 1 0 = 1) :
     Good cfg (enterSolWait a series cont) := by
   unfold Dnp3.enterSolWait
-  exact (h.emitCb _).setMode _ (fun _ _ _ _ hm => by cases hm)
+  refine (h.emitCb _).setMode _ (fun _ _ _ _ hm => by cases hm) (fun sr _ _ hm hf => ?_)
+  simp only [Mode.solWait.injEq] at hm
+  obtain ⟨rfl, _, _⟩ := hm
+  exact hs hf
 
 theorem Good.startUnsolSeries {cfg : OCfg} {a a' : Acc} (h : Good cfg a) {r : Resp} (hr : UnsolResp cfg r)
     {isNull : Bool} (hs : startUnsolSeries a r isNull = some a') : Good cfg a' := by
@@ -1137,7 +1516,7 @@ theorem Good.startUnsolSeries {cfg : OCfg} {a a' : Acc} (h : Good cfg a) {r : Re
   · rename_i a1 r1 hw
     simp only [Option.some.injEq] at hs; subst hs
     obtain ⟨g1, u1, _⟩ := h.writeUnsolicited hr hw
-    refine (g1.emitCb _).setMode _ (fun r n rt d hm => ?_)
+    refine (g1.emitCb _).setMode _ (fun r n rt d hm => ?_) (fun _ _ _ hm => by cases hm)
     simp only [Mode.unsolWait.injEq] at hm
     obtain ⟨rfl, _⟩ := hm
     exact u1
@@ -1189,7 +1568,7 @@ theorem Good.handleDeferredRead {cfg : OCfg} (hdb : DbContract) {a : Acc} (h : G
   split at hd
   · simp only [Option.some.injEq] at hd; subst hd; exact h
   · rename_i d hdef
-    obtain ⟨hdseq, hdfrag⟩ := h.1.2.2.2.2.2.2.2.2 d hdef
+    obtain ⟨hdseq, hdfrag⟩ := h.1.2.2.2.2.2.2.2.2.1 d hdef
     dsimp only at hd
     generalize hsel : List.foldl _ (a.1.db.reset, 0) d.hdrs = sel at hd
     have h0 : Good cfg ({ a.1 with db := sel.1, deferred := none, notified := true }, a.2) :=
@@ -1203,36 +1582,43 @@ theorem Good.handleDeferredRead {cfg : OCfg} (hdb : DbContract) {a : Acc} (h : G
     · rename_i a2 r2 hw
       obtain ⟨g2, s2, e1, e2, e3, _⟩ := hf.1.writeSolicited hf.2.1 hw
       have g3 : Good cfg ({ a2.1 with lastReq := some ⟨d.seq, d.frag, some r2, series⟩ }, a2.2) := by
-        refine g2.setLastReq _ (fun l hl => ?_)
+        refine g2.setLastReq _ (fun l hl => ?_) (fun _ _ _ _ _ l hl => by
+          simp only [Option.some.injEq] at hl; subst hl; exact hdfrag)
         simp only [Option.some.injEq] at hl; subst hl
         refine ⟨hdseq, fun r' hr' => ?_⟩
         simp only [Option.some.injEq] at hr'; subst hr'
-        exact ⟨s2, e1.trans hf.2.2.1, e2.trans hf.2.2.2.1, fun hne => absurd hdfrag hne⟩
+        exact ⟨s2, fun hne => absurd hdfrag hne⟩
       split at hd
       · simp only [Option.some.injEq] at hd; subst hd
-        exact g3.enterSolWait _ _
+        exact g3.enterSolWait _ _ (fun _ l hl => by
+          simp only [Option.some.injEq] at hl; subst hl; exact hdfrag)
       · simp only [Option.some.injEq] at hd; subst hd
         exact g3
 
 theorem Good.finishPass {cfg : OCfg} {a : Acc} (h : Good cfg a) (next : NextIdle) : Good cfg (finishPass a next) := by
   unfold Dnp3.finishPass
-  refine Good.setMode ?_ _ (fun _ _ _ _ hm => by cases hm)
+  refine Good.setMode ?_ _ (fun _ _ _ _ hm => by cases hm) (fun _ _ _ hm => by cases hm)
   split
   · split
     · exact h
     · exact Good.emit (a := a) h trivial
   · exact h
 
-theorem GoodRes.afterDeferred {cfg : OCfg} {k : Acc → StepRes} (hk : ∀ a, Good cfg a → GoodRes cfg (k a))
+theorem finishPass_noOpen (a : Acc) (next : NextIdle) : NoOpen (finishPass a next).1.mode := by
+  unfold Dnp3.finishPass
+  exact NoOpen.idle _
+
+theorem GoodRes.afterDeferred {cfg : OCfg} {k : Acc → StepRes}
+    (hk : ∀ a, Good cfg a → NoOpen a.1.mode → GoodRes cfg (k a))
     {a : Acc} (h : Good cfg a) (next : NextIdle) : GoodRes cfg (afterDeferred k a next) := by
   unfold Dnp3.afterDeferred
   dsimp only
   split
-  · exact hk _ (h.finishPass next)
+  · exact hk _ (h.finishPass next) (finishPass_noOpen a next)
   · exact h.finishPass next
 
 theorem GoodRes.afterUnsol {cfg : OCfg} (hdb : DbContract) {k : Acc → StepRes}
-    (hk : ∀ a, Good cfg a → GoodRes cfg (k a)) {a : Acc} (h : Good cfg a) (next : NextIdle) :
+    (hk : ∀ a, Good cfg a → NoOpen a.1.mode → GoodRes cfg (k a)) {a : Acc} (h : Good cfg a) (next : NextIdle) :
     GoodRes cfg (afterUnsol k a next) := by
   unfold Dnp3.afterUnsol
   split
@@ -1241,7 +1627,7 @@ theorem GoodRes.afterUnsol {cfg : OCfg} (hdb : DbContract) {k : Acc → StepRes}
   · rename_i a1 hd; exact GoodRes.afterDeferred hk (h.handleDeferredRead hdb hd) next
 
 theorem GoodRes.afterRequest {cfg : OCfg} (hdb : DbContract) {k : Acc → StepRes}
-    (hk : ∀ a, Good cfg a → GoodRes cfg (k a)) {a : Acc} (h : Good cfg a) :
+    (hk : ∀ a, Good cfg a → NoOpen a.1.mode → GoodRes cfg (k a)) {a : Acc} (h : Good cfg a) :
     GoodRes cfg (afterRequest k a) := by
   unfold Dnp3.afterRequest
   split
@@ -1249,11 +1635,13 @@ theorem GoodRes.afterRequest {cfg : OCfg} (hdb : DbContract) {k : Acc → StepRe
   · rename_i a1 hc; exact h.checkUnsolicited hdb hc
   · rename_i a1 next hc; exact GoodRes.afterUnsol hdb hk (h.checkUnsolicited hdb hc) next
 
-theorem GoodRes.runPass {cfg : OCfg} (hdb : DbContract) : ∀ (fuel : Nat) (a : Acc), Good cfg a →
+/-- `hm`: a pass of the idle loop starts with no solicited series open (its callers enter it with
+    `mode = .idle _`) -/
+theorem GoodRes.runPass {cfg : OCfg} (hdb : DbContract) : ∀ (fuel : Nat) (a : Acc), Good cfg a → NoOpen a.1.mode →
     GoodRes cfg (runPass fuel a)
-  | 0, a, h => by
+  | 0, a, h, _ => by
     unfold Dnp3.runPass; exact h.emitCb _
-  | fuel+1, a, h => by
+  | fuel+1, a, h, hm => by
     have ih := GoodRes.runPass (cfg := cfg) hdb fuel
     unfold Dnp3.runPass
     dsimp only
@@ -1261,7 +1649,9 @@ theorem GoodRes.runPass {cfg : OCfg} (hdb : DbContract) : ∀ (fuel : Nat) (a : 
     have hp := h0.popRequest
     have he := @popRequest_error { a.1 with notified := false }
     have hr := @popRequest_request { a.1 with notified := false }
-    generalize popRequest { a.1 with notified := false } = pr at hp he hr
+    have hpm : NoOpen (popRequest { a.1 with notified := false }).1.mode :=
+      (popRequest_mode { a.1 with notified := false }).1 ▸ hm
+    generalize popRequest { a.1 with notified := false } = pr at hp he hr hpm
     obtain ⟨s1, p⟩ := pr
     dsimp only at hp he hr ⊢
     split
@@ -1279,9 +1669,10 @@ theorem GoodRes.runPass {cfg : OCfg} (hdb : DbContract) : ∀ (fuel : Nat) (a : 
       split
       · exact GoodRes.die hp'
       · rename_i a1 series hh
-        exact (hp'.handleRequestFromIdle hdb hreq hh).enterSolWait _ _
+        exact (hp'.handleRequestFromIdle hdb hpm hreq hh).enterSolWait _ _
+          (handleRequestFromIdle_open (parseRequest_func hreq) hh)
       · rename_i a1 hh
-        exact GoodRes.afterRequest hdb ih (hp'.handleRequestFromIdle hdb hreq hh)
+        exact GoodRes.afterRequest hdb ih (hp'.handleRequestFromIdle hdb hpm hreq hh)
 
 theorem GoodRes.resumeAfterSol {cfg : OCfg} (hdb : DbContract) {a : Acc} (h : Good cfg a) (cont : SolCont) :
     GoodRes cfg (resumeAfterSol a cont) := by
@@ -1305,14 +1696,41 @@ theorem GoodRes.finishUnsol {cfg : OCfg} (hdb : DbContract) {a : Acc} (h : Good 
   unfold Dnp3.finishUnsol
   exact GoodRes.afterUnsol hdb (GoodRes.runPass hdb _) (h.afterUnsolSeries isNull confirmed) _
 
+/-- the stored response of a READ is replaced by the fragment just sent (D5 repaired) -/
+theorem Good.storeResponse {cfg : OCfg} {a : Acc} (h : Good cfg a) {r : Resp} (hr : SolResp cfg r)
+    (hread : ∀ lr, a.1.lastReq = some lr → lr.frag.getD 1 0 = 1) :
+    Good cfg ({ a.1 with lastReq := a.1.lastReq.map (fun lr => { lr with response := some r }) }, a.2) ∧
+    ∀ lr, a.1.lastReq.map (fun lr => { lr with response := some r }) = some lr → lr.frag.getD 1 0 = 1 := by
+  have key : ∀ l, a.1.lastReq.map (fun lr => { lr with response := some r }) = some l →
+      ∃ lr0, a.1.lastReq = some lr0 ∧ l = { lr0 with response := some r } := by
+    intro l hl
+    cases h0 : a.1.lastReq with
+    | none => rw [h0] at hl; simp at hl
+    | some lr0 =>
+      rw [h0] at hl
+      simp only [Option.map_some, Option.some.injEq] at hl
+      exact ⟨lr0, rfl, hl.symm⟩
+  have hread' : ∀ lr, a.1.lastReq.map (fun lr => { lr with response := some r }) = some lr → lr.frag.getD 1 0 = 1 := by
+    intro l hl
+    obtain ⟨lr0, h0, rfl⟩ := key l hl
+    exact hread lr0 h0
+  refine ⟨h.setLastReq _ (fun l hl => ?_) (fun _ _ _ _ _ l hl => hread' l hl), hread'⟩
+  obtain ⟨lr0, h0, rfl⟩ := key l hl
+  refine ⟨(h.1.2.2.2.2.2.2.1 lr0 h0).1, fun r' hr' => ?_⟩
+  simp only [Option.some.injEq] at hr'; subst hr'
+  exact ⟨hr, fun hne => absurd (hread lr0 h0) hne⟩
+
+/-- `hm`: `dispatch` enters with the mode that names the series being waited on -/
 theorem GoodRes.solWaitOnFragment {cfg : OCfg} (hdb : DbContract) {a : Acc} (h : Good cfg a) (series : Series)
-    (deadline : Nat) (cont : SolCont) : GoodRes cfg (solWaitOnFragment a series deadline cont) := by
+    (deadline : Nat) (cont : SolCont) (hm : a.1.mode = .solWait series deadline cont) :
+    GoodRes cfg (solWaitOnFragment a series deadline cont) := by
   unfold Dnp3.solWaitOnFragment
   have hp := Good.popRequest (s := a.1) (out := a.2) h
   have hr := @popRequest_request a.1
-  generalize popRequest a.1 = pr at hp hr
+  have hpm : (popRequest a.1).1.mode = .solWait series deadline cont := (popRequest_mode a.1).1.trans hm
+  generalize popRequest a.1 = pr at hp hr hpm
   obtain ⟨s1, p⟩ := pr
-  dsimp only at hp hr ⊢
+  dsimp only at hp hr hpm ⊢
   have newReq : ∀ a : Acc, Good cfg a → GoodRes cfg (Dnp3.abortSeries (emitCb a .solNewRequest) cont) :=
     fun a ha => GoodRes.abortSeries hdb (ha.emitCb _) cont
   split
@@ -1322,7 +1740,8 @@ theorem GoodRes.solWaitOnFragment {cfg : OCfg} (hdb : DbContract) {a : Acc} (h :
     have hreq := (hr rfl).2.1
     have hseq := parseRequest_seq_lt hreq
     have hp' : Good cfg (onLinkActivity s1, a.2) := hp
-    generalize onLinkActivity s1 = s2 at hp' ⊢
+    have hm2 : (onLinkActivity s1).mode = .solWait series deadline cont := hpm
+    generalize onLinkActivity s1 = s2 at hp' hm2 ⊢
     split
     · exact newReq (s2, a.2) hp'
     · exact newReq (s2, a.2) hp'
@@ -1334,11 +1753,13 @@ theorem GoodRes.solWaitOnFragment {cfg : OCfg} (hdb : DbContract) {a : Acc} (h :
       obtain ⟨lr0, hl0, _, _, rfl⟩ := classify_repeat (Or.inl ⟨hs, hcl⟩)
       have hst := hp'.1.2.2.2.2.2.2.1 lr0 hl0
       have hp2 : Good cfg ({ s2 with pending := none }, a.2) := hp'
-      refine GoodRes.blocked (Good.setMode ?_ _ (fun _ _ _ _ hm => by cases hm))
+      have key : ∀ a' : Acc, Good cfg a' → a'.1.mode = .solWait series deadline cont →
+          Good cfg ({ a'.1 with mode := .solWait series (a'.1.now + a'.1.cfg.ctimeout) cont }, a'.2) :=
+        fun a' g hm' => g.reSolWait hm' _ _
       split
       · rename_i r hr
-        exact hp2.repeatSolicited _ (hst.2 r hr).1
-      · exact hp2
+        exact key _ (hp2.repeatSolicited _ (hst.2 r hr).1) hm2
+      · exact key _ hp2 hm2
     · exact GoodRes.blocked (Good.emitCb (a := ({ s2 with pending := none }, a.2)) hp' _)
     · -- solicited confirm
       rename_i seq hcl
@@ -1357,20 +1778,29 @@ theorem GoodRes.solWaitOnFragment {cfg : OCfg} (hdb : DbContract) {a : Acc} (h :
         have hc := Good.clearWrittenEvents
           (a := ({ (emitCb ({ s2 with pending := none }, a.2) (.solConfirmed series.ecsn)).1 with lastBroadcast := none },
                   (emitCb ({ s2 with pending := none }, a.2) (.solConfirmed series.ecsn)).2)) (hp2.emitCb _)
+        have hcm := (clearWrittenEvents_mode
+          ({ (emitCb ({ s2 with pending := none }, a.2) (.solConfirmed series.ecsn)).1 with lastBroadcast := none },
+                  (emitCb ({ s2 with pending := none }, a.2) (.solConfirmed series.ecsn)).2)).1.trans hm2
         split
         · exact GoodRes.resumeAfterSol hdb hc cont
-        · have hnext : seq4Next series.ecsn < 16 := seq4Next_lt _ (by rw [← hecsn, hseq']; exact hseq)
+        · rename_i hfin
+          have hfin : series.fin = false := by simpa using hfin
+          have hnext : seq4Next series.ecsn < 16 := seq4Next_lt _ (by rw [← hecsn, hseq']; exact hseq)
           have hf := Good.formatReadResponse hdb (s := (clearWrittenEvents _).1) (out := (clearWrittenEvents _).2) hc false hnext 0
-          generalize Dnp3.formatReadResponse _ false (seq4Next series.ecsn) 0 = fr at hf ⊢
+          have hfm := (formatReadResponse_mode (clearWrittenEvents _).1 false (seq4Next series.ecsn) 0).1.trans hcm
+          generalize Dnp3.formatReadResponse _ false (seq4Next series.ecsn) 0 = fr at hf hfm ⊢
           obtain ⟨s2, r2, next⟩ := fr
-          dsimp only at hf ⊢
+          dsimp only at hf hfm ⊢
           split
           · exact GoodRes.die hc
           · rename_i a3 r3 hw
-            have g3 := (hf.1.writeSolicited hf.2.1 hw).1
+            obtain ⟨g3, s3, _⟩ := hf.1.writeSolicited hf.2.1 hw
+            -- the series is not finished: the stored request is the READ it answers
+            have hm3 : a3.1.mode = .solWait series deadline cont := (writeSolicited_mode hw).1.trans hfm
+            obtain ⟨g4, hread4⟩ := g3.storeResponse s3 (g3.1.2.2.2.2.2.2.2.2.2 _ _ _ hm3 hfin)
             split
-            · exact GoodRes.resumeAfterSol hdb g3 cont
-            · exact GoodRes.blocked (g3.setMode _ (fun _ _ _ _ hm => by cases hm))
+            · exact GoodRes.resumeAfterSol hdb g4 cont
+            · exact GoodRes.blocked (g4.setMode _ (fun _ _ _ _ hm => by cases hm) (fun _ _ _ _ _ => hread4))
 
 theorem Good.deferredSet {cfg : OCfg} {s : OState} {out : List OOut} (h : Good cfg (s, out)) (f : Frag) {seq : Nat}
     (hseq : seq < 16) (hf : f.data.getD 1 0 = 1) (hs : List ObjHdr) : Good cfg (deferredSet s f seq hs, out) := by
@@ -1380,15 +1810,17 @@ theorem Good.deferredSet {cfg : OCfg} {s : OState} {out : List OOut} (h : Good c
   simp only [Option.some.injEq] at hx; subst hx
   exact ⟨hseq, hf⟩
 
+/-- `hm`: no solicited series is open (`dispatch` enters with `mode = .unsolWait …`) -/
 theorem GoodRes.unsolWaitOnFragment {cfg : OCfg} (hdb : DbContract) {a : Acc} (h : Good cfg a) (resp : Resp)
-    (isNull : Bool) : GoodRes cfg (unsolWaitOnFragment a resp isNull) := by
+    (isNull : Bool) (hm : NoOpen a.1.mode) : GoodRes cfg (unsolWaitOnFragment a resp isNull) := by
   unfold Dnp3.unsolWaitOnFragment
   have hp := Good.popRequest (s := a.1) (out := a.2) h
   have he := @popRequest_error a.1
   have hr := @popRequest_request a.1
-  generalize popRequest a.1 = pr at hp he hr
+  have hpm : NoOpen (popRequest a.1).1.mode := (popRequest_mode a.1).1 ▸ hm
+  generalize popRequest a.1 = pr at hp he hr hpm
   obtain ⟨s1, p⟩ := pr
-  dsimp only at hp he hr ⊢
+  dsimp only at hp he hr hpm ⊢
   have hp1 : Good cfg ({ s1 with pending := none }, a.2) := hp
   split
   · exact hp1
@@ -1403,7 +1835,8 @@ theorem GoodRes.unsolWaitOnFragment {cfg : OCfg} (hdb : DbContract) {a : Acc} (h
     have hseq := parseRequest_seq_lt hreq
     have hfn := parseRequest_func hreq
     have hp2 : Good cfg (onLinkActivity { s1 with pending := none }, a.2) := hp
-    generalize onLinkActivity { s1 with pending := none } = s2 at hp2 ⊢
+    have hm2 : NoOpen (onLinkActivity { s1 with pending := none }).mode := hpm
+    generalize onLinkActivity { s1 with pending := none } = s2 at hp2 hm2 ⊢
     split
     · -- unsolicited confirm
       split
@@ -1430,16 +1863,17 @@ theorem GoodRes.unsolWaitOnFragment {cfg : OCfg} (hdb : DbContract) {a : Acc} (h
       · exact GoodRes.die hp2
       · rename_i a1 r1 hn
         obtain ⟨g1, n1⟩ := hp2.clearDeferred.handleNonRead hseq hn
+        have hm1 : NoOpen a1.1.mode := handleNonRead_mode hn ▸ hm2
         split
         · rename_i hw
           exact GoodRes.die g1
         · rename_i a2 r2 hw
-          have key : Good cfg a2 ∧ ∀ r, r2 = some r →
+          have key : (Good cfg a2 ∧ NoOpen a2.1.mode) ∧ ∀ r, r2 = some r →
               SolResp cfg r ∧ r.ctrl.seq = ctrl.seq ∧ r.ctrl.fir = true ∧ r.ctrl.fin = true := by
             split at hw
             · simp only [Option.some.injEq, Prod.mk.injEq] at hw
               obtain ⟨rfl, rfl⟩ := hw
-              exact ⟨g1, fun r hr => by simp at hr⟩
+              exact ⟨⟨g1, hm1⟩, fun r hr => by simp at hr⟩
             · rename_i r0
               split at hw
               · simp at hw
@@ -1448,15 +1882,15 @@ theorem GoodRes.unsolWaitOnFragment {cfg : OCfg} (hdb : DbContract) {a : Acc} (h
                 obtain ⟨rfl, rfl⟩ := hw
                 obtain ⟨b1, b2, b3, b4⟩ := n1 r0 rfl
                 obtain ⟨g3, s3, e1, e2, e3, _⟩ := g1.writeSolicited b1 hws
-                refine ⟨g3, fun r hr => ?_⟩
+                refine ⟨⟨g3, (writeSolicited_mode hws).1 ▸ hm1⟩, fun r hr => ?_⟩
                 simp only [Option.some.injEq] at hr; subst hr
                 exact ⟨s3, e1.trans b2, e2.trans b3, e3.trans b4⟩
           have g4 : Good cfg ({ a2.1 with lastReq := some ⟨ctrl.seq, f.data, r2, none⟩ }, a2.2) := by
-            refine key.1.setLastReq _ (fun l hl => ?_)
+            refine key.1.1.setLastReq _ (fun l hl => ?_) (fun _ _ _ hmo hf => key.1.2.elim hmo hf)
             simp only [Option.some.injEq] at hl; subst hl
             refine ⟨hseq, fun r hr => ?_⟩
             obtain ⟨c1, c2, c3, c4⟩ := key.2 r hr
-            exact ⟨c1, c2, c3, fun _ => c4⟩
+            exact ⟨c1, fun _ => ⟨c2, c3, c4⟩⟩
           split
           · exact GoodRes.finishUnsol hdb g4 _ _
           · exact g4
@@ -1484,7 +1918,8 @@ theorem GoodRes.unsolWaitTimeout {cfg : OCfg} (hdb : DbContract) {a : Acc} (h : 
   rcases retries with _ | _ | n <;> dsimp only <;> repeat' split
   all_goals first
     | exact GoodRes.finishUnsol hdb (h.emitCb _) _ _
-    | (refine GoodRes.blocked (Good.setMode ((h.emitCb _).repeatUnsolicited hr) _ (fun r n rt d hm => ?_))
+    | (refine GoodRes.blocked (Good.setMode ((h.emitCb _).repeatUnsolicited hr) _ (fun r n rt d hm => ?_)
+         (fun _ _ _ hm => by cases hm))
        simp only [Mode.unsolWait.injEq] at hm
        obtain ⟨rfl, _⟩ := hm
        exact hr)
@@ -1493,17 +1928,19 @@ theorem GoodRes.dispatch {cfg : OCfg} (hdb : DbContract) {a : Acc} (h : Good cfg
   unfold Dnp3.dispatch
   split
   · exact h
-  · split
-    · exact GoodRes.runPass hdb _ _ h
+  · rename_i next hm
+    split
+    · exact GoodRes.runPass hdb _ _ h (hm ▸ NoOpen.idle next)
     · exact h
-  · split
-    · exact GoodRes.solWaitOnFragment hdb h _ _ _
+  · rename_i series deadline cont hm
+    split
+    · exact GoodRes.solWaitOnFragment hdb h _ _ _ hm
     · split
       · exact GoodRes.solWaitTimeout hdb h _ _
       · exact h
   · rename_i resp isNull retries deadline hm
     split
-    · exact GoodRes.unsolWaitOnFragment hdb h _ _
+    · exact GoodRes.unsolWaitOnFragment hdb h _ _ (hm ▸ NoOpen.unsolWait _ _ _ _)
     · split
       · exact GoodRes.unsolWaitTimeout hdb h (h.1.2.2.2.2.2.2.2.1 _ _ _ _ hm) _ _
       · exact h
@@ -1525,13 +1962,14 @@ theorem GoodRes.settle {cfg : OCfg} (hdb : DbContract) : ∀ (fuel : Nat) (r : S
 
 theorem Inv.init (cfg : OCfg) (evMax : Nat) (hsol : 10 ≤ cfg.sol) (hunsol : 4 ≤ cfg.unsol) :
     Inv cfg (OState.init cfg evMax) := by
-  refine ⟨rfl, hsol, hunsol, ?_, ?_, ?_, ?_, ?_, ?_⟩
+  refine ⟨rfl, hsol, hunsol, ?_, ?_, ?_, ?_, ?_, ?_, ?_⟩
   · simp [OState.init]
   · simp [OState.init]
   · simp [OState.init]
   · intro lr h; simp [OState.init] at h
   · intro r n rt d h; simp [OState.init] at h
   · intro d h; simp [OState.init] at h
+  · intro sr dl c h; simp [OState.init] at h
 
 theorem Good.of_inv {cfg : OCfg} {s : OState} (h : Inv cfg s) : Good cfg (s, []) :=
   ⟨h, fun o ho => by simp at ho⟩
@@ -1539,7 +1977,8 @@ theorem Good.of_inv {cfg : OCfg} {s : OState} (h : Inv cfg s) : Good cfg (s, [])
 theorem Good.start {cfg : OCfg} (hdb : DbContract) (evMax : Nat) (hsol : 10 ≤ cfg.sol) (hunsol : 4 ≤ cfg.unsol) :
     Good cfg (Outstation.start cfg evMax) := by
   unfold Outstation.start
-  exact GoodRes.settle hdb _ _ (GoodRes.runPass hdb _ _ (Good.of_inv (Inv.init cfg evMax hsol hunsol)))
+  exact GoodRes.settle hdb _ _ (GoodRes.runPass hdb _ _ (Good.of_inv (Inv.init cfg evMax hsol hunsol))
+    (NoOpen.idle _))
 
 theorem Good.step {cfg : OCfg} (hdb : DbContract) (env : OEnv) {s : OState} (h : Inv cfg s) (inp : OInput) :
     Good cfg (Outstation.step env s inp) := by
@@ -1581,11 +2020,11 @@ theorem Good.step {cfg : OCfg} (hdb : DbContract) (env : OEnv) {s : OState} (h :
   · -- cut
     split
     · exact h0
-    · refine GoodRes.settle hdb _ _ (GoodRes.runPass hdb _ _ ?_)
+    · refine GoodRes.settle hdb _ _ (GoodRes.runPass hdb _ _ ?_ (NoOpen.idle _))
       refine ⟨?_, fun o ho => ?_⟩
       · obtain ⟨h1, h2, h3, h4, h5, h6, h7, h8, h9⟩ := h
         exact ⟨h1, h2, h3, h4, h5, h6, fun lr hl => by simp at hl, fun r n rt d hm => by simp at hm,
-          fun d hd => by simp at hd⟩
+          fun d hd => by simp at hd, fun sr dl c hm => by simp at hm⟩
       · simp only [List.mem_singleton] at ho; subst ho; trivial
 
 /-! ## C12 target 1: shape of everything transmitted -/
@@ -2163,22 +2602,45 @@ theorem rejection_flagged_read {a a' : Acc} {f : Frag} {ctrl : AppCtrl} {func : 
   refine ⟨r', h0, h1, h2, h3, h5, fun i hi m hm => h6 m ?_⟩
   exact dbSelectAll_bits m hs a.1.db i hi hm
 
-/-! ### (f) WRITE: the IIN2 of the LAST header wins — known defect D7 -/
+/-! ### (f) WRITE: the IIN2 results of ALL headers are accumulated (D7 repaired: `iin2 |= …`) -/
 
-/-- exact characterisation: the response IIN2 of a WRITE is the result of its last header, whatever
-    the earlier headers returned -/
-theorem write_last_header_wins (a : Acc) (seq : Nat) (pre : List ObjHdr) (h : ObjHdr) :
-    (handleWrite a seq (pre ++ [h])).2.iin2 = (handleWriteHeader (handleWrite a seq pre).1 h).2 := by
-  unfold handleWrite
-  simp only [List.foldl_append, List.foldl_cons, List.foldl_nil]
+/-- the fold step of `handleWrite` -/
+def writeStep (p : Acc × Nat) (h : ObjHdr) : Acc × Nat :=
+  ((handleWriteHeader p.1 h).1, p.2 ||| (handleWriteHeader p.1 h).2)
+
+theorem handleWrite_fold (a : Acc) (seq : Nat) (hs : List ObjHdr) :
+    handleWrite a seq hs = ((hs.foldl writeStep (a, 0)).1, emptySolicited seq (hs.foldl writeStep (a, 0)).2) := rfl
+
+/-- exact characterisation: every further header ORs its result into the response IIN2 -/
+theorem write_accumulates (a : Acc) (seq : Nat) (pre : List ObjHdr) (h : ObjHdr) :
+    (handleWrite a seq (pre ++ [h])).2.iin2 =
+      (handleWrite a seq pre).2.iin2 ||| (handleWriteHeader (handleWrite a seq pre).1 h).2 := by
+  simp only [handleWrite_fold, List.foldl_append, List.foldl_cons, List.foldl_nil]
   rfl
 
 theorem write_no_header (a : Acc) (seq : Nat) : (handleWrite a seq []).2.iin2 = 0 := rfl
 
-/-- single-header WRITEs do report their rejection -/
-theorem write_rejection_flagged_partial (a : Acc) (seq : Nat) (h : ObjHdr) :
-    (handleWrite a seq [h]).2.iin2 = (handleWriteHeader a h).2 :=
-  write_last_header_wins a seq [] h
+/-- bits once accumulated are never lost by the headers that follow -/
+theorem writeStep_foldl_mono (m : Nat) : ∀ (l : List ObjHdr) (p : Acc × Nat), HasBits p.2 m →
+    HasBits (l.foldl writeStep p).2 m
+  | [], _, h => h
+  | x :: l, p, h => writeStep_foldl_mono m l (writeStep p x) (h.or_left _)
+
+/-- **write_rejection_flagged** (full statement): for ANY header `h` of a WRITE — at any position,
+    whatever precedes and follows it — every IIN2 bit that handling `h` returns (in the state the
+    preceding headers left) is set in the IIN2 of the response record -/
+theorem write_rejection_flagged (a : Acc) (seq : Nat) (pre : List ObjHdr) (h : ObjHdr) (post : List ObjHdr)
+    (m : Nat) (hrej : HasBits (handleWriteHeader (handleWrite a seq pre).1 h).2 m) :
+    HasBits (handleWrite a seq (pre ++ h :: post)).2.iin2 m := by
+  simp only [handleWrite_fold, List.foldl_append, List.foldl_cons] at hrej ⊢
+  exact writeStep_foldl_mono m post _ (hrej.or_right _)
+
+/-- single-header WRITEs report exactly their header's result -/
+theorem write_single_header (a : Acc) (seq : Nat) (h : ObjHdr) :
+    (handleWrite a seq [h]).2.iin2 = (handleWriteHeader a h).2 := by
+  have := write_accumulates a seq [] h
+  rw [write_no_header, Nat.zero_or] at this
+  exact this
 
 /-- a WRITE header the session has no handler for is rejected with NO_FUNC_CODE_SUPPORT -/
 theorem handleWriteHeader_unsupported (a : Acc) (h : ObjHdr)
@@ -2186,7 +2648,23 @@ theorem handleWriteHeader_unsupported (a : Acc) (h : ObjHdr)
     (h3 : ¬ (h.group = 50 ∧ h.var = 3 ∧ h.qual = 0x07)) : (handleWriteHeader a h).2 = iin2NoFunc := by
   unfold handleWriteHeader; simp [h1, h2, h3]
 
-/-- the fragment `c1 02 | 50 01 00 04 04 00 | 50 01 00 07 07 00` -/
+theorem handleWrite_resp (a : Acc) (seq : Nat) (hs : List ObjHdr) :
+    (handleWrite a seq hs).2 = emptySolicited seq (handleWrite a seq hs).2.iin2 := rfl
+
+/-- (f) at the level of `handle_non_read`: the response record of a WRITE request carries the
+    request's sequence number and every IIN2 bit any of its headers returned -/
+theorem rejection_flagged_write (a : Acc) (seq frameId : Nat) (pre : List ObjHdr) (h : ObjHdr) (post : List ObjHdr)
+    (raw : List Nat) (m : Nat) (hrej : HasBits (handleWriteHeader (handleWrite a seq pre).1 h).2 m) :
+    ∃ a' r, handleNonRead a 2 seq frameId (pre ++ h :: post) raw = some (a', some r) ∧ r.ctrl.seq = seq ∧
+      HasBits r.iin2 m := by
+  have hn : nonReadRes a 2 seq frameId (pre ++ h :: post) raw =
+      some ((handleWrite a seq (pre ++ h :: post)).1, some (handleWrite a seq (pre ++ h :: post)).2) := by
+    simp [nonReadRes]
+  rw [handleNonRead_eq, hn]
+  exact ⟨_, _, rfl, rfl, (write_rejection_flagged a seq pre h post m hrej).or_left _⟩
+
+/-- the former D7 witness `c1 02 | 50 01 00 04 04 00 | 50 01 00 07 07 00`: first header rejected,
+    second accepted -/
 def d7Fragment : List Nat := [0xC1, 0x02, 0x50, 0x01, 0x00, 0x04, 0x04, 0x00, 0x50, 0x01, 0x00, 0x07, 0x07, 0x00]
 
 def d7Hdr1 : ObjHdr := ⟨80, 1, 0, 4, 4, [0]⟩
@@ -2196,31 +2674,20 @@ theorem d7Fragment_parses :
     parseRequest d7Fragment = .request ⟨true, true, false, false, 1⟩ 2 (.ok [d7Hdr1, d7Hdr2]) (d7Fragment.drop 2) := by
   rfl
 
-theorem handleWrite_resp (a : Acc) (seq : Nat) (hs : List ObjHdr) :
-    (handleWrite a seq hs).2 = emptySolicited seq (handleWrite a seq hs).2.iin2 := rfl
-
 theorem d7Hdr1_rejected (a : Acc) : (handleWriteHeader a d7Hdr1).2 = iin2ParamError := by
   simp [handleWriteHeader, d7Hdr1, handleWriteIin, bitAt, iin2ParamError, List.range, List.range.loop]
 
 theorem d7Hdr2_accepted (a : Acc) : (handleWriteHeader a d7Hdr2).2 = 0 := by
   simp [handleWriteHeader, d7Hdr2, handleWriteIin, bitAt, List.range, List.range.loop]
 
-/-- **D7**: the first header (write IIN1.4) is rejected with PARAMETER_ERROR, the second (clear
-    RESTART) succeeds, and the response record has IIN2 = 0 — in ANY state -/
-theorem write_rejection_lost_counterexample (a : Acc) :
-    (handleWriteHeader a d7Hdr1).2 = iin2ParamError ∧
-    (handleWrite a 1 [d7Hdr1, d7Hdr2]).2.iin2 = 0 ∧
-    ∃ a', handleNonRead a 2 1 0 [d7Hdr1, d7Hdr2] (d7Fragment.drop 2) = some (a', some (emptySolicited 1 0)) := by
-  have h2 : (handleWrite a 1 [d7Hdr1, d7Hdr2]).2.iin2 = 0 := by
-    rw [show [d7Hdr1, d7Hdr2] = [d7Hdr1] ++ [d7Hdr2] from rfl, write_last_header_wins, d7Hdr2_accepted]
-  refine ⟨d7Hdr1_rejected a, h2, (handleWrite a 1 [d7Hdr1, d7Hdr2]).1, ?_⟩
-  have h : nonReadRes a 2 1 0 [d7Hdr1, d7Hdr2] (d7Fragment.drop 2) =
-      some ((handleWrite a 1 [d7Hdr1, d7Hdr2]).1, some (handleWrite a 1 [d7Hdr1, d7Hdr2]).2) := by
-    simp [nonReadRes]
-  rw [handleNonRead_eq, h]
-  dsimp only
-  rw [handleWrite_resp, h2]
-  rfl
+/-- regression instance of `write_rejection_flagged` (the former D7 counterexample): the rejected
+    first header's PARAMETER_ERROR is in the response record although the second header succeeds —
+    in ANY state -/
+theorem write_rejection_flagged_d7 (a : Acc) :
+    HasBits (handleWrite a 1 [d7Hdr1, d7Hdr2]).2.iin2 iin2ParamError := by
+  have := write_rejection_flagged a 1 [] d7Hdr1 [d7Hdr2] iin2ParamError
+    (by rw [show (handleWrite a 1 []).1 = a from rfl, d7Hdr1_rejected]; exact HasBits.self _)
+  exact this
 
 /-! ## Handlers only emit callbacks (they never transmit) -/
 
@@ -2897,7 +3364,9 @@ def solContinuation (a : Acc) (f : Frag) (series : Series) (cont : SolCont) : St
   let fr := formatReadResponse a1.1 false (seq4Next series.ecsn) 0
   match writeSolicited (fr.1, a1.2) f.src fr.2.1 with
   | none => die a1
-  | some (a2, _) =>
+  | some (a2, r2) =>
+    -- the fragment just sent becomes the stored response of the READ (D5 repaired)
+    let a2 : Acc := ({ a2.1 with lastReq := a2.1.lastReq.map (fun lr => { lr with response := some r2 }) }, a2.2)
     match fr.2.2 with
     | none => resumeAfterSol a2 cont
     | some sr => .blocked ({ a2.1 with mode := .solWait sr (a2.1.now + a2.1.cfg.ctimeout) cont }, a2.2)
@@ -2916,6 +3385,80 @@ theorem solWait_confirm_continues (a : Acc) (series : Series) (dl : Nat) (cont :
     unfold classify; simp [hu]
   simp only [hc, hs, hfin, ne_eq, not_true_eq_false, if_false, Bool.false_eq_true, emitCb, emit]
   rfl
+
+/-- what `write_solicited` does to the output and to the solicited buffer: one transmission, the header of the
+    returned record written over the buffer, `max 4 size` octets of it sent -/
+theorem writeSolicited_tx {a a' : Acc} {dst : Nat} {r r' : Resp} (hw : writeSolicited a dst r = some (a', r')) :
+    a'.2 = a.2 ++ [.tx dst (a'.1.solBuf.take (max 4 r'.size))] ∧
+    a'.1.solBuf = writeAt a.1.solBuf 0 (respHeader r') := by
+  unfold Dnp3.writeSolicited at hw
+  split at hw
+  · simp at hw
+  · rename_i s i1 i2 hg
+    simp only [Option.some.injEq, Prod.mk.injEq] at hw
+    obtain ⟨rfl, rfl⟩ := hw
+    refine ⟨rfl, ?_⟩
+    rcases getResponseIin_state hg with rfl | rfl <;> rfl
+
+/-- D5 repaired: after a continuation fragment is sent, the stored response of the last request IS that
+    fragment's response record (so a repeated READ echoes the fragment that awaits the confirm).
+    `a1`, `fr` are the intermediate values of `solContinuation`; `(a2, r2)` is what `write_solicited` returned -/
+theorem solContinuation_stores {a : Acc} {f : Frag} {series : Series} {cont : SolCont} {a1 a2 : Acc}
+    {fr : OState × Resp × Option Series} {r2 : Resp}
+    (ha1 : a1 = clearWrittenEvents
+      ({ onLinkActivity a.1 with pending := none, lastBroadcast := none }, a.2 ++ [.cb (.solConfirmed series.ecsn)]))
+    (hfr : fr = formatReadResponse a1.1 false (seq4Next series.ecsn) 0)
+    (hw : writeSolicited (fr.1, a1.2) f.src fr.2.1 = some (a2, r2)) :
+    -- exactly the continuation fragment goes out: the header of `r2` over the solicited buffer …
+    a2.2 = a1.2 ++ [.tx f.src (a2.1.solBuf.take (max 4 r2.size))] ∧
+    a2.1.solBuf = writeAt fr.1.solBuf 0 (respHeader r2) ∧
+    -- … `lastReq` is still the request the series answers …
+    a2.1.lastReq = a.1.lastReq ∧
+    -- … and the session goes on with `r2` stored as its response
+    solContinuation a f series cont =
+      (let a3 : Acc := ({ a2.1 with lastReq := a.1.lastReq.map (fun lr => { lr with response := some r2 }) }, a2.2)
+       match fr.2.2 with
+       | none => resumeAfterSol a3 cont
+       | some sr => .blocked ({ a3.1 with mode := .solWait sr (a3.1.now + a3.1.cfg.ctimeout) cont }, a3.2)) ∧
+    -- in particular, when more fragments follow, the wait for the next CONFIRM is entered in that state
+    ∀ sr, fr.2.2 = some sr → ∃ a', solContinuation a f series cont = .blocked a' ∧
+      a'.1.mode = .solWait sr (a2.1.now + a2.1.cfg.ctimeout) cont ∧
+      a'.1.lastReq = a.1.lastReq.map (fun lr => { lr with response := some r2 }) ∧
+      a'.1.solBuf = a2.1.solBuf ∧ a'.2 = a2.2 := by
+  subst ha1; subst hfr
+  have hl : a2.1.lastReq = a.1.lastReq := by
+    rw [(writeSolicited_mode hw).2]
+    show (formatReadResponse _ false (seq4Next series.ecsn) 0).1.lastReq = _
+    rw [(formatReadResponse_mode _ _ _ _).2, (clearWrittenEvents_mode _).2]
+    rfl
+  have hc : solContinuation a f series cont =
+      (let a3 : Acc := ({ a2.1 with lastReq := a.1.lastReq.map (fun lr => { lr with response := some r2 }) }, a2.2)
+       match (formatReadResponse (clearWrittenEvents
+          ({ onLinkActivity a.1 with pending := none, lastBroadcast := none },
+            a.2 ++ [.cb (.solConfirmed series.ecsn)])).1 false (seq4Next series.ecsn) 0).2.2 with
+       | none => resumeAfterSol a3 cont
+       | some sr => .blocked ({ a3.1 with mode := .solWait sr (a3.1.now + a3.1.cfg.ctimeout) cont }, a3.2)) := by
+    unfold solContinuation
+    dsimp only
+    rw [hw]
+    dsimp only
+    rw [hl]
+  refine ⟨(writeSolicited_tx hw).1, (writeSolicited_tx hw).2, hl, hc, fun sr hsr => ?_⟩
+  rw [hc]
+  dsimp only
+  rw [hsr]
+  exact ⟨_, rfl, rfl, rfl, rfl, rfl⟩
+
+/-- re-writing the header a buffer already starts with changes nothing: the echo `repeat_solicited` sends for
+    the record stored by `solContinuation_stores` is, octet for octet, the continuation fragment -/
+theorem repeatSolicited_verbatim (a : Acc) (dst : Nat) (r : Resp) {buf0 : List Nat}
+    (hb : a.1.solBuf = writeAt buf0 0 (respHeader r)) :
+    (repeatSolicited a dst r).2 = a.2 ++ [.tx dst (a.1.solBuf.take (max 4 r.size))] ∧
+    (repeatSolicited a dst r).1.solBuf = a.1.solBuf := by
+  have : writeAt a.1.solBuf 0 (respHeader r) = a.1.solBuf := by
+    rw [hb]; simp [writeAt]
+  unfold Dnp3.repeatSolicited
+  simp only [emit, this, and_self]
 
 /-- a CONFIRM with another sequence number, or an unsolicited CONFIRM, is dropped with a callback
     and nothing is transmitted -/
@@ -3036,10 +3579,12 @@ example : freezeRej ⟨30, 0, 6, 0, 0, []⟩ = iin2NoFunc := by decide
 example : enableRej ⟨60, 1, 6, 0, 0, []⟩ = iin2NoFunc := by decide
 example : (OState.init {} 0).cfg.unsolicited = false := rfl
 
--- D7 at the step level: the rejected first header leaves no trace in the response (IIN2 = 0; the
--- second header cleared IIN1.7)
+-- `write_rejection_flagged` hypothesis, and the former D7 witness at the step level: the rejected first
+-- header's PARAMETER_ERROR is reported (IIN2 = 0x04) although the second header cleared IIN1.7
+example (a : Acc) : HasBits (handleWriteHeader (handleWrite a 1 []).1 d7Hdr1).2 iin2ParamError := by
+  rw [show (handleWrite a 1 []).1 = a from rfl, d7Hdr1_rejected]; exact HasBits.self _
 example : txFrags (Outstation.step {} (Outstation.start {} 0).1 (.rx 1 1024 d7Fragment)).2 =
-    [(1, [0xC1, 0x81, 0x00, 0x00])] := by decide +kernel
+    [(1, [0xC1, 0x81, 0x00, 0x04])] := by decide +kernel
 
 -- `silent_functions_partial`: FREEZE_AT_TIME_NR (12) from the master: nothing transmitted
 example : txFrags (Outstation.step {} (Outstation.start {} 0).1 (.rx 1 1024 [0xC1, 12])).2 = [] := by decide +kernel
@@ -3061,6 +3606,37 @@ example : (Outstation.start cfgU 0).1.deferred = none := by decide +kernel
 
 -- `solWait_confirm_continues` hypotheses (a CONFIRM seq 3 pending while fragment 3 of a series awaits it)
 example : parseRequest [0xC3, 0] = .request ⟨true, true, false, false, 3⟩ 0 (.ok []) [] := by rfl
+
+-- `solContinuation_stores` (D5 repaired).  A READ of class 1 answered in two fragments (solicited buffer of 30
+-- octets, 8 binary events); `d5State`: fragment 1 (seq 1, FIR, CON) awaits its CONFIRM
+def d5State : OState :=
+  (Outstation.run {} (Outstation.start { sol := 30, unsol := 30 } 100).1
+    [.add .binary 0 1, .txn ((List.range 8).map fun i => TxnItem.bin 0 (i % 2 == 0) 1 i),
+     .rx 1 1024 [0xC1, 1, 60, 2, 6]]).1
+def d5Confirm : Frag := ⟨d5State.frameId, 1, none, [0xC1, 0]⟩
+def d5A1 : Acc := clearWrittenEvents
+  ({ onLinkActivity { d5State with pending := some d5Confirm } with pending := none, lastBroadcast := none },
+   [.cb (.solConfirmed 1)])
+def d5Fr : OState × Resp × Option Series := formatReadResponse d5A1.1 false (seq4Next 1) 0
+
+example : (match d5State.mode with | .solWait sr _ _ => some (sr.ecsn, sr.fin) | _ => none) = some (1, false) := by
+  decide +kernel
+-- hypotheses `ha1`, `hfr` hold by `rfl` for `a := ({ d5State with pending := some d5Confirm }, [])`; `hw`:
+example : (writeSolicited (d5Fr.1, d5A1.2) d5Confirm.src d5Fr.2.1).isSome = true := by decide +kernel
+-- at the step level: the CONFIRM releases fragment 2 (seq 2, FIN, CON), and that fragment's record is stored …
+example : txFrags (Outstation.step {} d5State (.rx 1 1024 [0xC1, 0])).2 =
+    [(1, [0x62, 0x81, 0x80, 0x00, 2, 1, 40, 1, 0, 0, 0, 1])] := by decide +kernel
+example : ((Outstation.step {} d5State (.rx 1 1024 [0xC1, 0])).1.lastReq.bind (·.response)).map
+    (fun r => (r.ctrl.toNat, r.size)) = some (0x62, 12) := by decide +kernel
+-- … so the READ repeated while fragment 2 awaits its CONFIRM is answered with fragment 2 again (`repeatSolicited_verbatim`)
+example : txFrags (Outstation.step {} (Outstation.step {} d5State (.rx 1 1024 [0xC1, 0])).1
+    (.rx 1 1024 [0xC1, 1, 60, 2, 6])).2 = [(1, [0x62, 0x81, 0x80, 0x00, 2, 1, 40, 1, 0, 0, 0, 1])] := by decide +kernel
+
+-- `NoOpen` (hypothesis of `GoodRes.runPass`, `Good.handleRequestFromIdle`, `GoodRes.unsolWaitOnFragment`)
+example : NoOpen (Outstation.start {} 0).1.mode := by
+  intro sr dl c h
+  have : (match (Outstation.start {} 0).1.mode with | .solWait .. => true | _ => false) = false := by decide +kernel
+  rw [h] at this; cases this
 
 -- `operate_echo_overflow_panics` hypothesis
 example : [d1Header].all isControlHdr = true := by decide
